@@ -692,7 +692,7 @@ class Gen:
 
 def gen_sweep(rng, tier):
     """(a): one-step programs, every operation of the catalogue, operands in every format"""
-    reps = 8 if tier == "quick" else 60
+    reps = 6 if tier == "quick" else 60
     cases = []
     for name in OPS:
         for k in range(reps):
@@ -754,7 +754,7 @@ def gen_directed(rng, tier):
             ([[0, -1, -1], [0, 0, 1], [0, -2, 0]], [[-2, -2, -1, 0], [0, 1, -1, -1], [1, 2, -2, 0]]),
             ([[1, 0], [0, 0], [3, -1]], [[0, 2, 0], [1, -2, 4]])]
     pk = 0
-    for A, B in (mats if tier != "quick" else mats[:2]):
+    for A, B in (mats if tier != "quick" else mats[:1]):
         for rt in (None, "coo", "gcxs", "dense"):
             for fmt, ca in fmts:
                 for side in ("sd", "ds"):
@@ -811,7 +811,7 @@ def gen_directed(rng, tier):
 
 def gen_programs(rng, tier):
     """(b): composed programs"""
-    n = 300 if tier == "quick" else 3000
+    n = 240 if tier == "quick" else 3000
     maxd = 4 if tier == "quick" else 8
     names = [n_ for n_ in OPS if n_ not in SWEEP_ONLY]
     weights = [3 if OPS[n_]["second"] in ("matmul", "tensordot", "concat", "stack") or n_ in (
@@ -833,7 +833,7 @@ def gen_programs(rng, tier):
 
 def gen_ctor(rng, tier):
     """(c): COO(coords, data, shape, fill_value, sorted=, has_duplicates=, prune=) on raw inputs"""
-    n = 500 if tier == "quick" else 6000
+    n = 400 if tier == "quick" else 6000
     cases = []
     for i in range(n):
         nd = rng.choice([1, 1, 2, 2, 3]) if i % 40 else 0
